@@ -759,6 +759,25 @@ class ComponentState(object):
             if stopEngine:
                 self.engine.shutdown()
 
+    def suspend(self):
+        '''Puts the receiver in the SUSPENDED state unless it has been asked to finish. Returns True on success'''
+        with self._finishLock:
+            if self._finishedCalled or self.controllerState in [
+                    experiment.model.codes.FINISHED_STATE, experiment.model.codes.FAILED_STATE,
+                    experiment.model.codes.SHUTDOWN_STATE]:
+                return False
+            self.controllerState = experiment.model.codes.SUSPENDED_STATE
+            return True
+
+    def resume(self):
+        '''Takes the receiver out of the SUSPENDED state. Returns False if it is no longer suspended (e.g. it was asked
+        to finish in the meantime, its final state must not be touched)'''
+        with self._finishLock:
+            if self.controllerState != experiment.model.codes.SUSPENDED_STATE:
+                return False
+            self.controllerState = None
+            return True
+
     @property
     def finishCalled(self):
 
